@@ -146,6 +146,7 @@ def _identity(det, s, th, args, scaling, pol):
     return f, h, I, ref, hv, iv, np.abs(fx.values) ** 2 + np.abs(fy.values) ** 2
 
 
+@scat.guarded
 def run_case(case):
     return globals()["_run_" + case["kind"]](case)
 
@@ -191,9 +192,12 @@ def _run_history(case):
                 hraised += 1
         cfg = cfgs[i]
         det, s, th, args = _objs(cfg)
-        h = calc_holo(det, s, theory=th, scaling=cfg["scaling"], **args)
-        f = calc_field(det, s, theory=th, **args)
-        recs.append({"i": i, "h": [float(v) for v in h.values.ravel()], "fsha": sha(f.values)})
+        try:
+            h = calc_holo(det, s, theory=th, scaling=cfg["scaling"], **args)
+            f = calc_field(det, s, theory=th, **args)
+            recs.append({"i": i, "h": [float(v) for v in h.values.ravel()], "fsha": sha(f.values)})
+        except Exception as e:   # a calculation that fails must fail the same way in every history
+            recs.append({"i": i, "h": [], "fsha": "raised:" + type(e).__name__})
     return {"recs": recs, "hostile_calls": hcount, "hostile_raised": hraised, "resid": {}, "fmax": 1.0, "hptp": 1.0}
 
 
